@@ -97,7 +97,7 @@ Definition seq_erase (s : seq) (offset length : Z) : out seq :=
 
 Definition seq_rotate (s : seq) (n : Z) : out seq :=
   let len := zlen (residues s) in
-  if len =? 0 then Panic (* n %= 0 *) else
+  if len =? 0 then Ok s (* if Len(seq) == 0 { return seq } *) else
   (* for Len > 0 && n < 0 { n += Len } ; n %= Len *)
   let n := if n <? 0 then (n mod len) else gmod n len in
   ff <- insert_all (fun l => l' <- expand l 0 n ;; normalize l' len) [] (feats s) ;;
